@@ -66,13 +66,51 @@ func checkC03(p *Program, r *Reporter) {
 	}
 	// (b) emitted times are results of the boundary function
 	r.Rule("E4-EMITTED", "every emitted audio time is a result of the boundary function", 4)
-	isBoundaryResult := func(v ssa.Value) bool {
-		q := newDepQueryLocal(p, func(x ssa.Value) bool {
-			c, ok := x.(*ssa.Call)
-			return ok && c.Call.StaticCallee() == bfn
-		})
-		q.intra = true
-		return q.depends(v, 0)
+	// all-paths: the value is a boundary result (or a sum/difference of boundary results) whichever way it was reached
+	var isBoundaryResult func(v ssa.Value) bool
+	seenBR := map[ssa.Value]bool{}
+	isBoundaryResult = func(v ssa.Value) bool {
+		if done, ok := seenBR[v]; ok {
+			return done // a cycle through a loop phi: judged on its other edges
+		}
+		seenBR[v] = true
+		res := false
+		switch x := v.(type) {
+		case *ssa.Call:
+			res = x.Call.StaticCallee() == bfn
+		case *ssa.Phi:
+			res = true
+			for _, e := range x.Edges {
+				if !isBoundaryResult(e) {
+					res = false
+				}
+			}
+		case *ssa.BinOp:
+			_, cx := x.X.(*ssa.Const)
+			_, cy := x.Y.(*ssa.Const)
+			res = (cx || isBoundaryResult(x.X)) && (cy || isBoundaryResult(x.Y)) && !(cx && cy)
+		case *ssa.Convert:
+			res = isBoundaryResult(x.X)
+		case *ssa.ChangeType:
+			res = isBoundaryResult(x.X)
+		case *ssa.UnOp:
+			// load of a local cell: every store into it
+			if al, ok := x.X.(*ssa.Alloc); ok && al.Referrers() != nil {
+				res = true
+				n := 0
+				for _, ref := range *al.Referrers() {
+					if st, ok := ref.(*ssa.Store); ok && st.Addr == ssa.Value(al) {
+						n++
+						if !isBoundaryResult(st.Val) {
+							res = false
+						}
+					}
+				}
+				res = res && n > 0
+			}
+		}
+		seenBR[v] = res
+		return res
 	}
 	for _, b := range mpdSide.Blocks {
 		for _, in := range b.Instrs {
@@ -84,7 +122,11 @@ func checkC03(p *Program, r *Reporter) {
 			if !ok || (f != "mpd.S.T" && f != "mpd.S.D") {
 				continue
 			}
-			r.Decide(isBoundaryResult(st.Val), "E4-EMITTED", shortFn(mpdSide), "store:"+f, p.pos(st.Pos()), "derived from calcAudioTimeFromRef results",
+			val := st.Val
+			if c, ok := val.(*ssa.Call); ok && c.Call.StaticCallee() != nil && c.Call.StaticCallee() != bfn && len(c.Call.Args) == 1 {
+				val = c.Call.Args[0] // Ptr(t)
+			}
+			r.Decide(isBoundaryResult(val), "E4-EMITTED", shortFn(mpdSide), "store:"+f, p.pos(st.Pos()), "derived from calcAudioTimeFromRef results on every path",
 				"the MPD emits an audio "+f+" that is not derived from the boundary function", nil)
 		}
 	}
@@ -105,11 +147,13 @@ func checkC03(p *Program, r *Reporter) {
 	// (c) served metadata from the recipe
 	r.Rule("E4-FROMRECIPE", "served audio segment: time, duration and number come from the recipe", 3)
 	stores := metaFieldStores(cas)
-	for f, srcs := range map[string][]string{
+	recipeSources := map[string][]string{
 		"app.segMeta.newTime": {"app.audioRecipe.startTime"},
 		"app.segMeta.newDur":  {"app.audioRecipe.startTime", "app.audioRecipe.endTime"},
 		"app.segMeta.newNr":   {"app.audioRecipe.segNr"},
-	} {
+	}
+	for _, f := range []string{"app.segMeta.newTime", "app.segMeta.newDur", "app.segMeta.newNr"} {
+		srcs := recipeSources[f]
 		if len(stores[f]) == 0 {
 			r.Violate("E4-FROMRECIPE", shortFn(cas), "field:"+f, p.pos(cas.Pos()), "createAudioSegment no longer fills "+f, nil)
 			continue
